@@ -496,3 +496,65 @@ def module_function_lookup(ctx, mod, extra, skip=()):
         return False, None
     memo = {}
     return look
+
+
+def request_api_model(ctx):
+    """Model evaluation (sa/miniinterp.py) of Connection.sync_request / async_request with a model AsyncResult class and a
+    recording `_async_request`: what is registered as the callback of which request, which expiry the result object gets, and
+    what the call returns. Returns a dict of findings (memoised per context), or {'error': text} when not evaluable."""
+    memo = getattr(ctx, "_request_api_model", None)
+    if memo is not None:
+        return memo
+    from .. import miniinterp as MI
+    out = {}
+    try:
+        conn = ctx.cls(CONN)
+        meths = {n: m.node for n, m in conn.methods.items() if n not in ("_async_request",)}
+        fsync, fasync = conn.methods["sync_request"], conn.methods["async_request"]
+
+        def scenario(entry, args, kwargs, cfg_timeout):
+            results, issued = [], []
+
+            class _Res:
+                mi_native = True
+
+                def __init__(self, c):
+                    self.conn = c
+                    self.expiry = []
+                    self.no = len(results)
+                    results.append(self)
+
+                def set_expiry(self, t):
+                    self.expiry.append(t)
+
+                @property
+                def value(self):
+                    return ("VALUE-OF", self.no)
+
+                def wait(self):
+                    return None
+            hooks = {"AsyncResult": _Res, "self._async_request": lambda h, a=(), cb=None: issued.append((h, a, cb))}
+            state = {"_config": {"sync_request_timeout": cfg_timeout}, "_closed": False}
+            extra = {"__calls__": hooks, "__methods__": meths, "__max_iter__": 100}
+            extra["__global_lookup__"] = module_function_lookup(ctx, entry.module, extra)
+            try:
+                got = MI.call_method(entry.node, state, list(args), dict(extra, __kwargs__=kwargs)) if not kwargs else \
+                    MI.call_method_kw(entry.node, state, list(args), kwargs, extra)
+            except MI.Raised as r_:
+                got = ("raises", r_.name)
+            return got, results, issued
+        # sync_request("H", 1, 2) under a configured timeout of 30
+        got, results, issued = scenario(fsync, ["H", 1, 2], {}, 30)
+        out["sync"] = {"returned": got, "n_results": len(results), "issued": [(h, a, getattr(cb, "no", None)) for h, a, cb in issued],
+                       "expiry": [r.expiry for r in results]}
+        for tmo in (None, 0, 5):
+            got, results, issued = scenario(fasync, ["H", 1, 2], {"timeout": tmo} if tmo is not None else {}, 30)
+            out["async", tmo] = {"returned_no": getattr(got, "no", got), "n_results": len(results),
+                                 "issued": [(h, a, getattr(cb, "no", None)) for h, a, cb in issued],
+                                 "expiry": [r.expiry for r in results]}
+        got, results, issued = scenario(fasync, ["H"], {"bogus": 1}, 30)
+        out["async", "bogus"] = {"returned": got, "issued": len(issued)}
+    except (AnalysisError, KeyError, AttributeError) as e_:
+        out = {"error": "%s: %s" % (type(e_).__name__, e_)}
+    ctx._request_api_model = out
+    return out
